@@ -149,20 +149,26 @@ def build(tier, seed):
             lambda a, t1, t2, t, swap, op=op: f'COUNTIF(int {a}, {TEXTS[t1 % 4]!r}, {TEXTS[t2 % 4]!r}; "{op}{TEXTS[t % 4]}")')
 
     # ---------------- COUNTIFS: two criteria, conjunctive position by position
-    MS = mk({'A1': 1, 'A2': 2, 'A3': 3, 'B1': 1, 'B2': 2, 'B3': 3, 'C1': 0, 'C2': 0, 'Z1': '=COUNTIFS(A1:A3,">"&C1,B1:B3,"<="&C2)', 'Z2': '=COUNTIFS(A1:A3,C1,B1:B3,"<>"&C2)',
-             'Z3': '=COUNTIFS(A1:A3,">="&C1)'})
+    MS = mk({'A1': 1, 'A2': 2, 'B1': 1, 'B2': 2, 'C1': 0, 'C2': 0, 'Z1': '=COUNTIFS(A1:A2,">"&C1,B1:B2,"<="&C2)', 'Z2': '=COUNTIFS(A1:A2,C1,B1:B2,"<>"&C2)',
+             'Z3': '=COUNTIFS(A1:A2,">="&C1)'})
 
-    def h_ifs(a1: int, a2: int, a3: int, b1: int, b2: int, b3: int, k1: int, k2: int) -> bool:
-        k1, k2 = concretize(k1, -1, 1), concretize(k2, -1, 1)
-        for nm, v in (('A1', a1), ('A2', a2), ('A3', a3), ('B1', b1), ('B2', b2), ('B3', b3), ('C1', k1), ('C2', k2)):
-            setv(MS, 'Sheet1!' + nm, v)
-        ev = Evaluator(MS)
-        rows = ((a1, b1), (a2, b2), (a3, b3))
-        return (nval(ev.evaluate('Sheet1!Z1')) == sum(1 for a, b in rows if a > k1 and b <= k2) and nval(ev.evaluate('Sheet1!Z2')) == sum(1 for a, b in rows if a == k1 and b != k2)
-                and nval(ev.evaluate('Sheet1!Z3')) == sum(1 for a, b in rows if a >= k1))
-    add('COUNTIFS', h_ifs, lambda a1, a2, a3, b1, b2, b3, k1, k2: -1 <= k1 <= 1 and -1 <= k2 <= 1, [(1, 2, 3, 3, 2, 1, 1, 2), (0, 0, 0, 0, 0, 0, -1, 0)],
-        'two ranges of 3 int cells (unbounded), two criteria (">"&k1, "<="&k2), (k1, "<>"&k2), one criterion; k1, k2 in -1..1 (forked)', 150,
-        lambda *a: f'A={a[:3]!r} B={a[3:6]!r} k1={a[6]} k2={a[7]}')
+    def mk_ifs(z):
+        def h_ifs(a1: int, a2: int, b1: int, b2: int, k1: int, k2: int) -> bool:
+            k1, k2 = concretize(k1, -1, 1), concretize(k2, -1, 1)
+            for nm, v in (('A1', a1), ('A2', a2), ('B1', b1), ('B2', b2), ('C1', k1), ('C2', k2)):
+                setv(MS, 'Sheet1!' + nm, v)
+            ev = Evaluator(MS)
+            rows = ((a1, b1), (a2, b2))
+            if z == 1:
+                return nval(ev.evaluate('Sheet1!Z1')) == sum(1 for a, b in rows if a > k1 and b <= k2)
+            if z == 2:
+                return nval(ev.evaluate('Sheet1!Z2')) == sum(1 for a, b in rows if a == k1 and b != k2)
+            return nval(ev.evaluate('Sheet1!Z3')) == sum(1 for a, b in rows if a >= k1)
+        return h_ifs
+    for z, desc in ((1, '(">"&k1, "<="&k2)'), (2, '(k1, "<>"&k2)'), (3, 'single criterion ">="&k1')):
+        add(f'COUNTIFS[{desc}]', mk_ifs(z), lambda a1, a2, b1, b2, k1, k2: -1 <= k1 <= 1 and -1 <= k2 <= 1, [(1, 2, 2, 1, 1, 1), (0, 0, 0, 0, -1, 0)],
+            f'two ranges of 2 int cells (unbounded), criteria {desc} combined position by position; k1, k2 in -1..1 (forked)', 60,
+            lambda *a: f'A={a[:2]!r} B={a[2:4]!r} k1={a[4]} k2={a[5]}')
 
     # ---------------- MATCH exact / approximate
     MM = mk({'A1': 1, 'A2': 2, 'A3': 3, 'A4': 4, 'B1': 0, 'Z1': '=MATCH(B1,A1:A4,0)', 'Z2': '=MATCH(B1,A1:A4,1)', 'Z3': '=MATCH(B1,A1:A4)', 'Z4': '=MATCH(B1,A1:A3,0)'})
